@@ -49,6 +49,7 @@ THEOREMS = [
     "SleapVerif.C09.model_cost_colPattern",
     "SleapVerif.C09.nan_row_model_divergence",
     "SleapVerif.C09.nan_track_counterexample",
+    "SleapVerif.C09.nan_track_repaired",
     "SleapVerif.C09.anyrow_counterexample_fw",
     "SleapVerif.C09.anyrow_counterexample_lq",
     "SleapVerif.C09.lqlist_counterexample",
@@ -378,11 +379,11 @@ def check_argsort(cm, order):
 # --------------------------------------------------------------------------- model side
 def model_lines(case, frames, fixes):
     cfg = case["cfg"]
-    lines = ["init {} {} {} {} {} {} {} {}".format(
+    lines = ["init {} {} {} {} {} {} {} {} {}".format(
         "lq" if cfg["candidates_method"] == "local_queues" else "fw", cfg["window_size"],
         rat(float(cfg["instance_score_threshold"])),
         "g" if cfg["track_matching_method"] == "greedy" else "h", cfg["scoring_reduction"],
-        int(fixes[0]), int(fixes[1]), int(fixes[2]))]
+        int(fixes[0]), int(fixes[1]), int(fixes[2]), int(fixes[3]) if len(fixes) > 3 else 1)]
     for f, fr in enumerate(frames):
         toks = ["frame", str(f), str(fr["n"])] + [rat(s) for s in fr["scores"]]
         toks.append(str(len(fr["table"])))
@@ -878,8 +879,7 @@ def replay_witnesses(chk, pid_map=None):
         target = (pid_map or {}).get(fid_, fid_)
         if target is not None:
             chk.known_replay(target, still_fails=fails, detail="; ".join(details))
-    chk.extra["nan_scores_fix_detected"] = flags.get("F-C09d")
-    return (flags["F-C09a"], flags["F-C09b"], flags["F-C09c"])
+    return (flags["F-C09a"], flags["F-C09b"], flags["F-C09c"], flags["F-C09d"])
 
 
 # --------------------------------------------------------------------------- shrinking / search
@@ -1051,7 +1051,7 @@ def main(chk):
     chk.build_and_audit()
     setup()
     fixes = replay_witnesses(chk)
-    chk.extra["fixes_detected"] = dict(zip(["anyRow", "lqList", "stale"], fixes))
+    chk.extra["fixes_detected"] = dict(zip(["anyRow", "lqList", "stale", "nanSafe"], fixes))
     chk.extra["model_variant"] = "repaired" if all(fixes) else "asIs flags for the unrepaired defects"
     cases = [c for cs in WITNESS.values() for c in cs] + load_corpus("C09")
     # every configuration at least once, then random configurations
